@@ -790,6 +790,26 @@ def addl(ctx: Any) -> List[Ob]:
             if isinstance(v, ast.Call) and norm(v.func) == 'set' and v.args and norm(v.args[0]) == p_answers:
                 seeded = st.targets[0].id if isinstance(st, ast.Assign) else st.target.id  # type: ignore[union-attr]
     obs.append(ob(R, owner, f'sending = set({p_answers})', 'the de-duplication set is seeded with the answers', seeded is not None))
+    # every answer of the set goes out: one trip of the loop over the answers adds the answer of that trip at time 0 (its full
+    # TTL), and a new additional of it is attached on the path where the membership test lets it through
+    loops_o = [n for n in cfg.nodes if n.kind == 'for' and not n.in_loop and isinstance(n.ast.target, ast.Name) and any(isinstance(x, ast.Name) and x.id == p_answers for x in ast.walk(n.ast.iter))]
+    if len(loops_o) != 1:
+        raise AnalysisError('anchor vanished: the loop over the answers in _add_answers_additionals')
+    lo = loops_o[0]
+    av = lo.ast.target.id
+    whole = not any(isinstance(x, (ast.Subscript, ast.IfExp, ast.comprehension)) for x in ast.walk(lo.ast.iter))
+    oc_o, _ = fd.run_paths(prog, owner.module, cfg, {}, lambda node, evl: [('ANS', tuple(norm(a) for a in c.args)) for c in fd.node_calls(node, evl) if call_name(c) in ('add_answer_at_time', 'add_answer')], start=lo, stop=lambda n: n is lo, loop_bound=1, for_iter=lambda n, e: True if n is lo else None)
+    per_o = {tuple(x for x in strip_ret(t) if isinstance(x, tuple) and x[0] == 'ANS') for t in oc_o}
+    obs.append(ob(R, owner, lo.ast, 'every answer of the set is written to the reply once, with its full TTL (time 0), whatever its additionals are', whole and per_o == {(('ANS', (av, '0')),)}, f'per answer: {sorted(map(str, per_o))[:2]}; iterates the whole set: {whole}'))
+    # ... and the two reply constructors fill the message they return through this routine, on every path
+    for cname in ('construct_outgoing_multicast_answers', 'construct_outgoing_unicast_answers'):
+        cf_ = prog.func('zeroconf._handlers.answers.' + cname)
+        ccfg = cfg_of(cf_.node)
+        fills = [n for n in ccfg.nodes if any(call_name(c) == owner.name and len(c.args) == 2 and norm(c.args[1]) == cf_.params[0] for c in n.calls())]
+        outs_ = {norm(c.args[0]) for n in fills for c in n.calls() if call_name(c) == owner.name}
+        rets_c = [r for r in walk_local_ordered(cf_.node) if isinstance(r, ast.Return) and r.value is not None]
+        byp_c = ccfg.must_pass_before_exit(ccfg.entry, lambda n: n in fills) if fills else [ccfg.entry]
+        obs.append(ob(R, cf_, fills[0].ast if fills else f'{owner.name}(out, answers)', f'{cname} puts the answers and their additionals into the message it returns, on every path', bool(fills) and byp_c is None and len(outs_) == 1 and all(norm(r.value) in outs_ for r in rets_c)))
     for n in cfg.nodes_calling('add_additional_answer'):
         call = next(c for c in n.calls() if call_name(c) == 'add_additional_answer')
         rec = norm(call.args[0])
